@@ -303,7 +303,7 @@ func (g *Gen) solveAll(obls []*Obligation, dir string, timeoutMS, seed, par int)
 			defer wg.Done()
 			defer func() { <-sem2 }()
 			first := ob.Output
-			g.solveOne(ob, dir, header, timeoutMS*3, seed+1)
+			g.solveOne(ob, dir, header, timeoutMS*6, seed+1)
 			ob.Output = "retry after: " + first + " | " + ob.Output
 		}()
 	}
